@@ -20,27 +20,76 @@ RULE = ('per registered strategy: all read-length pairs (l1,l2) within the tier 
         'reads (de-Bruijn bases with N, quality=f(mate,position) over phred 0..51); plus every single-base '
         'substitution (ACGTN) of one barcode with Hamming expansion 1, the barcode planted -2..+2 off position, '
         'single-end input, and the content classes of composite strategies (VASA barcode, poly-A/G/T, T7, TSO oligo). '
-        'A case is non-trivial when the pair is accepted and an emitted read is non-empty; states = distinct inputs')
+        'Further per strategy: variants 1..51 of the position code (shifted de-Bruijn window, quality code rotated so that '
+        'every tag position sees every phred 0..51, an extra N walking over positions 0..19) at two length pairs; the '
+        'option word probe in {None, True} x content in {plain, CATG@11, T@11, CA@11, scar primer @0/@4, a different '
+        'whitelisted barcode on the other mate} x 3 barcodes x 4 length pairs; single-end and 3-read input for every '
+        'strategy; every ordered strategy pair (A, B): A then B on the SAME record objects as the loader does, B judged '
+        'against the original reads; loader configurations {CLI default, indexFileAlias=None, user barcode directory '
+        'with a 10x and a DamID2_scattered_10bp list}.  Every emitted record is also observed in its written form '
+        'record.asFastq(). A case is non-trivial when the pair is accepted and an emitted read is non-empty; states = distinct inputs')
 ASSUMPTIONS = [
     'only accepted pairs are judged (acceptance itself belongs to C01/C03); a strategy whose whitelist is non-empty '
     'must accept at least one planted pair, otherwise the run stops as vacuous (exit 2)',
     'bases over ACGTN, qualities phred 0..51, reads of 0..150 nt, Illumina header with index',
     'CHROMC16U12: the shipped 10x whitelist is an emptied file in this snapshot, the strategy accepts nothing '
-    '(reported in counters as vacuous, not a violation)',
+    '(reported in counters as vacuous, not a violation) in the shipped configuration; it and the DamID branch of '
+    'DamID2andT_3u4b3u6b (whitelist DamID2_scattered_10bp not shipped) are exercised through a user barcode directory '
+    '(demux.py -barcodeDir: the shipped files plus a 4-barcode 10x list and nine DamID2_scattered_8bp barcodes + GA that '
+    'are >= 3 substitutions away from every CS2_scattered_8bp barcode, so that the two sub-layouts never both match)',
+    'single-end or 3-read input to a strategy whose documented layout uses R2, and any input under probe=True, may be '
+    'refused by ANY exception (the loader treats exceptions while probing as "not this protocol"; refusal of unusable '
+    'input is C01/C03); such input is judged only when it is accepted. A 3-read input accepted by a barcode strategy '
+    'is counted, not judged (no layout is documented for a third mate); the bulk strategy must return all mates unchanged',
     'weak rows (source = code comment, see oracles/c02_layout.py ROWS[..]["weak"]): DamID insert start / lh, '
     'width of lh, primer side where the description says "ends with" (either side accepted when rS equals the removed bases), '
     'poly-T stripping and VASA R2 trimming of the composite strategies',
 ]
 
-_ST = {}        # hd -> {shortName: strategy}
+_ST = {}        # (cfg, hd) -> {shortName: strategy}
 _WL = {}
 _NM = None
+_XLISTS = {}    # alias -> {barcode: index}: the two lists of the user barcode directory (cfg 'xdir')
+CFGS = {'std': (0, 1), 'noifa': (0,), 'xdir': (0, 1)}
+XSHORT = ('CHROMC16U12', 'DamID2andT_3u4b3u6b')     # strategies whose whitelist only exists in the user directory
+SCAR = 'CCTTGAACTTCTGGTTGTAG'                        # scartrace primer the probing branch looks for
+TENX = ('AAACCCAAGAAACACT', 'CGATGGCTCAGGTTAC', 'GTCATTTGTCCAGTAT', 'TTTGTTGTCTTTGATC')   # pairwise >= 9 apart
 
 
-def _wl(alias):
+def _wl(alias, cfg='std'):
+    if cfg == 'xdir' and alias in _XLISTS:
+        return _XLISTS[alias]
     if alias not in _WL:
         _WL[alias] = L.read_whitelist(bind.REPO, alias)
     return _WL[alias]
+
+
+def _wlf(cfg):
+    return lambda alias: _wl(alias, cfg)
+
+
+def _make_xlists():
+    """the two whitelists this snapshot does not ship, as a user would supply them in -barcodeDir"""
+    _XLISTS['10x_3M-february-2018'] = {b: str(i + 1) for i, b in enumerate(TENX)}      # one barcode per line
+    dam, cs = _wl('DamID2_scattered_8bp') or {}, _wl('CS2_scattered_8bp') or {}
+    far = {b + 'GA': idx for b, idx in dam.items() if all(L.hamming(b, c) >= 3 for c in cs if len(c) == len(b))}
+    _XLISTS['DamID2_scattered_10bp'] = far
+    if len(far) < 3:
+        raise bind.HarnessError('cannot derive a DamID2_scattered_10bp list that never collides with CS2_scattered_8bp')
+
+
+def _make_xdir(shipped):
+    import tempfile
+    d = tempfile.mkdtemp(prefix='c02_bc_', dir='/dev/shm' if os.path.isdir('/dev/shm') else None)
+    for f in sorted(os.listdir(shipped)):
+        if f.startswith('10x_3M-february-2018') or f.startswith('DamID2_scattered_10bp'):
+            continue
+        os.symlink(os.path.join(shipped, f), os.path.join(d, f))
+    with open(os.path.join(d, '10x_3M-february-2018.bc'), 'w') as f:
+        f.write(''.join(b + '\n' for b in TENX))
+    with open(os.path.join(d, 'DamID2_scattered_10bp.bc'), 'w') as f:
+        f.write(''.join(f'{idx}\t{b}\n' for b, idx in _XLISTS['DamID2_scattered_10bp'].items()))
+    return d
 
 
 def setup():
@@ -50,28 +99,39 @@ def setup():
     bad = L.table_selfcheck()
     if bad:
         raise bind.HarnessError(f'layout table inconsistent: {bad}')
+    import shutil
     import singlecellmultiomics
     from singlecellmultiomics.barcodeFileParser.barcodeFileParser import BarcodeParser
     from singlecellmultiomics.modularDemultiplexer.demultiplexingStrategyLoader import DemultiplexingStrategyLoader
     from singlecellmultiomics.modularDemultiplexer.baseDemultiplexMethods import NonMultiplexable
     _NM = NonMultiplexable
     root = os.path.dirname(os.path.realpath(singlecellmultiomics.__file__))
+    shipped = os.path.join(root, 'modularDemultiplexer/barcodes/')
     ip = BarcodeParser(barcodeDirectory=os.path.join(root, 'modularDemultiplexer/indices/'), hammingDistanceExpansion=1)
-    for hd in (0, 1):
-        bp = BarcodeParser(barcodeDirectory=os.path.join(root, 'modularDemultiplexer/barcodes/'),
-                           hammingDistanceExpansion=hd, lazyLoad=("10x_3M-february-2018",))
-        dmx = DemultiplexingStrategyLoader(barcodeParser=bp, indexParser=ip,
-                                           indexFileAlias='illumina_merged_ThruPlex48S_RP')
-        d = {}
-        for s in dmx.demultiplexingStrategies:
-            if s.shortName in d:
-                raise bind.HarnessError(f'two registered strategies share shortName {s.shortName}')
-            d[s.shortName] = s
-        _ST[hd] = d
-    missing = sorted(set(_ST[0]) - set(L.ALL_SHORT))
+    _make_xlists()
+    xdir = _make_xdir(shipped)
+    try:
+        for cfg, hds in CFGS.items():
+            for hd in hds:
+                # as demux.py builds them: -hd, -barcodeDir, -ifa
+                bp = BarcodeParser(barcodeDirectory=xdir if cfg == 'xdir' else shipped,
+                                   hammingDistanceExpansion=hd, lazyLoad=("10x_3M-february-2018",))
+                if cfg == 'xdir':
+                    bp['10x_3M-february-2018']      # resolve the lazily loaded list while the directory exists
+                dmx = DemultiplexingStrategyLoader(barcodeParser=bp, indexParser=ip,
+                                                   indexFileAlias=None if cfg == 'noifa' else 'illumina_merged_ThruPlex48S_RP')
+                d = {}
+                for s in dmx.demultiplexingStrategies:
+                    if s.shortName in d:
+                        raise bind.HarnessError(f'two registered strategies share shortName {s.shortName}')
+                    d[s.shortName] = s
+                _ST[(cfg, hd)] = d
+    finally:
+        shutil.rmtree(xdir, ignore_errors=True)
+    missing = sorted(set(_ST[('std', 0)]) - set(L.ALL_SHORT))
     if missing:
         raise bind.HarnessError(f'registered strategies without a layout row: {missing}')
-    gone = sorted(set(L.ALL_SHORT) - set(_ST[0]))
+    gone = sorted(set(L.ALL_SHORT) - set(_ST[('std', 0)]))
     if gone:
         raise bind.HarnessError(f'layout rows without a registered strategy: {gone}')
     for a in {r['alias'] for r in L.ROWS.values()} | {'celseq2', 'maya_384NLA'}:
@@ -95,17 +155,17 @@ def _sources(short):
     return []   # ILLU
 
 
-def _plant_bc(barcode, segments, delta=0, only=None):
-    """write the barcode over its segments; delta moves all segments (or only segment `only`)"""
+def _plant_bc(barcode, segments, delta=0, only=None, mate=None):
+    """write the barcode over its segments; delta moves all segments (or only segment `only`); mate overrides the mate"""
     out, i = [], 0
     for k, (m, s, e) in enumerate(segments):
-        out.append([m, s + (delta if only in (None, k) else 0), barcode[i:i + (e - s)]])
+        out.append([m if mate is None else mate, s + (delta if only in (None, k) else 0), barcode[i:i + (e - s)]])
         i += e - s
     return out
 
 
-def _pick3(alias):
-    wl = _wl(alias)
+def _pick3(alias, cfg='std'):
+    wl = _wl(alias, cfg)
     if not wl:
         return []
     keys = list(wl)
@@ -165,49 +225,93 @@ def bounds(tier):
         'barcodes_per_whitelist': 3, 'hamming_expansion': [0, 1],
         'substitution_alphabet': 'ACGTN at every barcode position of one barcode',
         'barcode_offsets': [-2, -1, 0, 1, 2], 'phred': '0..51', 'N_positions': list(L.N_POS),
-        'content_classes': 'TCHIC 13, CHICTV 7, poly-T 6 per composite DamID strategy',
+        'content_classes': 'TCHIC 13, CHICTV 9, poly-T 6 per composite DamID strategy',
+        'position_code_variants': f'(bases v, qualities q) in (v,v), (v,0), (0,q) for v, q in 1..{L.VARIANTS - 1} x length pairs {_var_lens("P", tier)}',
+        'options': {'probe': ['absent (sweeps)', None, True], 'contents': [c for c, _ in _CONTENTS] + ['decoy'],
+                    'length_pairs': _opt_lens('P', tier)},
+        'mates': 'pairs; single-end input for every strategy; 3-read input for every strategy',
+        'strategy_chains': f'{len(L.ALL_SHORT)} x {len(L.ALL_SHORT)} ordered pairs on shared record objects',
+        'loader_configurations': {c: {'hamming_expansion': list(h)} for c, h in CFGS.items()},
+        'user_barcode_directory': {'strategies': list(XSHORT), '10x': list(TENX),
+                                   'DamID2_scattered_10bp': len(_XLISTS.get('DamID2_scattered_10bp', ()))},
+        'observations': 'tags, .sequence, .qualities of every mate; lines 2 and 4 of record.asFastq()',
     }
+
+
+def _var_lens(p, tier):
+    if p == 'P':
+        return ['150/150', 'P+2/P+2'] + (['P/P', 'P+1/P+1', '60/40'] if tier != 'quick' else [])
+    out = [(L.READLEN, L.READLEN), (p[0] + 2, p[1] + 2)]
+    if tier != 'quick':
+        out += [(p[0], p[1]), (p[0] + 1, p[1] + 1), (60, 40)]
+    return out
+
+
+def _opt_lens(p, tier):
+    if p == 'P':
+        return ['150/150', 'P+3/P+3', 'P/P', '11/11', '30/0'] + (['P+1/P+1', '12/12', '13/0', '100/7'] if tier != 'quick' else [])
+    out = [(L.READLEN, L.READLEN), (p[0] + 3, p[1] + 3), (p[0], p[1]), (11, 11), (30, 0)]
+    if tier != 'quick':
+        out += [(p[0] + 1, p[1] + 1), (12, 12), (13, 0), (100, 7)]
+    return out
+
+
+# content letters of the option shard: what the probing branches of the strategies look at (NlaIII site / ligated T /
+# CA overhang after the barcode, scar primer at the start of R1 or behind its 4 nt random sequence)
+_CONTENTS = [('plain', []), ('CATG@11', [[0, 11, 'CATG']]), ('T@11', [[0, 11, 'T']]), ('CA@11', [[0, 11, 'CA']]),
+             ('scar@0', [[0, 0, SCAR]]), ('scar@4', [[0, 4, SCAR]])]
+
+
+def _std_shards(short, cfg):
+    out = []
+    src = _sources(short)
+    if not src:
+        out.append(('sweep', short, 'none', None, 0))
+    for label, alias, _ in src:
+        picks = _pick3(alias, cfg)
+        if not picks:
+            out.append(('sweep', short, label, None, 0))
+        for j, _bc in enumerate(picks):
+            out.append(('sweep', short, label, j, 0))
+    out.append(('hd1', short))
+    if _se_mode(short) != 'only':
+        out.append(('se', short))
+    if short in L.COMPOSITE and short != 'ILLU':
+        out.append(('content', short))
+    out += [('var', short), ('opt', short), ('three', short)]
+    return out
 
 
 def shards(tier):
     out = []
     for short in L.ALL_SHORT:
-        src = _sources(short)
-        if not src:
-            out.append(('sweep', short, 'none', None, 0))
-        for label, alias, _ in src:
-            picks = _pick3(alias)
-            if not picks:
-                out.append(('sweep', short, label, None, 0))
-            for j, _bc in enumerate(picks):
-                out.append(('sweep', short, label, j, 0))
-        out.append(('hd1', short))
-        if _se_mode(short) in ('only', 'ok'):
-            out.append(('se', short))
-        if short in L.COMPOSITE and short != 'ILLU':
-            out.append(('content', short))
+        out += _std_shards(short, 'std')
+        out += [('chain', short), ('cfg', 'noifa', ('thin', short))]
+    for short in XSHORT:
+        out += [('cfg', 'xdir', sh) for sh in _std_shards(short, 'xdir')]
     return out
 
 
-def _cases(shard, tier):
+def _cases(shard, tier, cfg='std'):
     """yield (case dict, acceptable: a whitelisted barcode sits at a documented position and the reads are long enough)"""
     kind, short = shard[0], shard[1]
     base = _base_plant(short)
     se_only = _se_mode(short) == 'only'
+    srcs = [(label, alias, sg, _pick3(alias, cfg)) for label, alias, sg in _sources(short)]
     if kind == 'sweep':
         _, _, label, j, hd = shard
         plant = list(base)
         acceptable = False
         if j is not None:
-            for lab, alias, sg in _sources(short):
+            for lab, alias, sg, picks in srcs:
                 if lab == label:
-                    plant = plant + _plant_bc(_pick3(alias)[j], sg)
+                    plant = plant + _plant_bc(picks[j], sg)
                     acceptable = True
         ls = _lengths(short, tier)
         if j is not None:
             # the same barcode planted off its documented position: accepted only by code that reads the wrong bases
             p = _prefix(short)
-            for lab, alias, sg in _sources(short):
+            for lab, alias, sg, picks in srcs:
                 if lab != label:
                     continue
                 for only in [None] + (list(range(len(sg))) if len(sg) > 1 else []):
@@ -216,7 +320,7 @@ def _cases(shard, tier):
                             continue
                         for l1, l2 in ((L.READLEN, L.READLEN), (p[0] + 3, p[1] + 3)):
                             for h in (0, 1):
-                                yield {'s': short, 'hd': h, 'plant': base + _plant_bc(_pick3(alias)[j], sg, delta, only),
+                                yield {'s': short, 'hd': h, 'plant': base + _plant_bc(picks[j], sg, delta, only),
                                        'l1': l1, 'l2': None if se_only else l2, 'cls': f'{label}/shift'}, False
         if se_only:
             # the layout has no R2: the sweep is single-end, pairs are only shown to be refused
@@ -233,8 +337,7 @@ def _cases(shard, tier):
         lens = [(L.READLEN, L.READLEN), (p[0], p[1]), (p[0] + 1, 7)]
         if tier == 'thorough':
             lens += [(p[0] + 20, p[1] + 20), (60, 0), (0, 60), (p[0] - 1 if p[0] else 0, p[1] - 1 if p[1] else 0)]
-        for label, alias, sg in _sources(short):
-            picks = _pick3(alias)
+        for label, alias, sg, picks in srcs:
             if not picks:
                 continue
             for bc in (picks[:1] if tier == 'quick' else picks):
@@ -247,19 +350,88 @@ def _cases(shard, tier):
                             yield {'s': short, 'hd': 1, 'plant': base + _plant_bc(mut, sg), 'l1': l1,
                                    'l2': None if se_only else l2, 'cls': label + '/sub'}, False
     elif kind == 'se':
-        if se_only:
-            return      # already single-end in the sweep
-        for label, alias, sg in _sources(short):
-            picks = _pick3(alias)
+        # single-end input. Layouts that do not involve R2 ('ok'): judged, exceptions are violations. Layouts that
+        # document something on R2 and the composite strategies: may refuse in any way, judged when accepted.
+        lenient = _se_mode(short) != 'ok'
+        l1s = range(0, L.READLEN + 1) if tier == 'thorough' else sorted(set(range(0, _prefix(short)[0] + 9)) | {L.READLEN})
+        for label, alias, sg, picks in srcs or [('none', None, [], [])]:
             for bc in picks or [None]:
                 plant = base + (_plant_bc(bc, sg) if bc else [])
-                for l1 in range(0, L.READLEN + 1) if tier == 'thorough' else sorted(set(range(0, _prefix(short)[0] + 9)) | {L.READLEN}):
-                    yield {'s': short, 'hd': 0, 'plant': plant, 'l1': l1, 'l2': None, 'cls': label + '/se'}, bc is not None
+                for l1 in l1s:
+                    c = {'s': short, 'hd': 0, 'plant': plant, 'l1': l1, 'l2': None, 'cls': label + '/se'}
+                    if lenient:
+                        c['xr'] = True
+                    yield c, bc is not None and not lenient
     elif kind == 'content':
-        yield from _content_cases(short, tier)
+        yield from _content_cases(short, tier, cfg)
+    elif kind == 'var':
+        p = _prefix(short)
+        for label, alias, sg, picks in srcs or [('none', None, [], [None])]:
+            if not picks:
+                continue
+            plant = base + (_plant_bc(picks[0], sg) if picks[0] else [])
+            # other bases AND qualities, then the same qualities under other bases, then the SAME bases under other qualities
+            for fam, vq in (('var', [(v, v) for v in range(1, L.VARIANTS)]), ('var-bases', [(v, 0) for v in range(1, L.VARIANTS)]),
+                            ('var-quals', [(0, q) for q in range(1, L.VARIANTS)])):
+                for v, q in vq:
+                    for l1, l2 in _var_lens(p, tier):
+                        yield {'s': short, 'hd': 0, 'plant': plant, 'l1': l1, 'l2': None if se_only else l2, 'v': v, 'q': q,
+                               'cls': f'{label}/{fam}'}, picks[0] is not None and l1 == L.READLEN
+    elif kind == 'opt':
+        p = _prefix(short)
+        for label, alias, sg, picks in srcs or [('none', None, [], [None])]:
+            if not picks:
+                continue
+            contents = list(_CONTENTS)
+            for j, bc in enumerate(picks):
+                cs = list(contents)
+                if bc is not None and not se_only and len(picks) > 1:
+                    # a DIFFERENT whitelisted barcode at the same coordinates of the other mate
+                    other = 1 - sg[0][0]
+                    cs.append(('decoy', _plant_bc(picks[(j + 1) % len(picks)], sg, mate=other)))
+                for cname, cplant in cs:
+                    plant = cplant + base + (_plant_bc(bc, sg) if bc else [])
+                    for probe in (None, True):
+                        for l1, l2 in _opt_lens(p, tier):
+                            yield {'s': short, 'hd': 0, 'plant': plant, 'l1': l1, 'l2': None if se_only else l2,
+                                   'probe': probe, 'cls': f'{label}/opt:probe={probe}:{cname}'}, \
+                                bc is not None and probe is None and l1 == L.READLEN
+    elif kind == 'three':
+        p = _prefix(short)
+        for label, alias, sg, picks in srcs or [('none', None, [], [None])]:
+            if not picks:
+                continue
+            plant = base + (_plant_bc(picks[0], sg) if picks[0] else [])
+            for l1, l2, l3 in ((L.READLEN,) * 3, (20, 20, 20), (p[0] + 1, p[1] + 1, 0), (L.READLEN, L.READLEN, 8)):
+                yield {'s': short, 'hd': 0, 'plant': plant, 'l1': l1, 'l2': l2, 'l3': l3, 'cls': label + '/3reads'}, False
+    elif kind == 'chain':
+        # the loader hands the SAME record objects to every selected strategy in turn (-use A,B / autodetection):
+        # what B emits is judged against the reads as they came from the file, whatever A did before
+        p = _prefix(short)
+        for label, alias, sg, picks in srcs or [('none', None, [], [None])]:
+            if not picks:
+                continue
+            mine = base + (_plant_bc(picks[0], sg) if picks[0] else [])
+            for pre in L.ALL_SHORT:
+                theirs = []
+                for _, a2, sg2 in _sources(pre)[:1]:
+                    pk = _pick3(a2, cfg)
+                    if pk:
+                        theirs = _base_plant(pre) + _plant_bc(pk[0], sg2)
+                for l1, l2 in ((L.READLEN, L.READLEN), (p[0] + 3, p[1] + 3)):
+                    yield {'s': short, 'hd': 0, 'plant': theirs + mine, 'l1': l1, 'l2': None if se_only else l2,
+                           'pre': pre, 'probe': None, 'cls': label + '/chain'}, picks[0] is not None and l1 == L.READLEN
+    elif kind == 'thin':
+        p = _prefix(short)
+        for label, alias, sg, picks in srcs or [('none', None, [], [None])]:
+            for bc in picks:
+                plant = base + (_plant_bc(bc, sg) if bc else [])
+                for l1, l2 in ((L.READLEN, L.READLEN), (p[0] + 1, p[1] + 1)):
+                    yield {'s': short, 'hd': 0, 'plant': plant, 'l1': l1, 'l2': None if se_only else l2,
+                           'cls': label + '/thin'}, bc is not None and l1 == L.READLEN
 
 
-def _content_cases(short, tier):
+def _content_cases(short, tier, cfg='std'):
     if short == 'TCHIC':
         chic, cs2 = _wl('maya_384NLA'), _wl('celseq2')
         bc = _pick3('maya_384NLA')[0]
@@ -279,7 +451,7 @@ def _content_cases(short, tier):
             ('vasa-of-other-cell', b + [[0, 30, other]]),
         ]
         l1s = (25, 42, 43, 150) if tier == 'quick' else (13, 25, 26, 42, 43, 44, 60, 100, 150)
-        l2s = (0, 45, 53, 70, 72, 95, 150) if tier == 'quick' else (0, 2, 3, 4, 45, 52, 53, 54, 60, 69, 70, 71, 72, 73, 80, 95, 96, 110, 150)
+        l2s = (0, 2, 3, 4, 45, 53, 70, 72, 95, 150) if tier == 'quick' else (0, 2, 3, 4, 45, 52, 53, 54, 60, 69, 70, 71, 72, 73, 80, 95, 96, 110, 150)
         for name, plant in classes:
             for l1 in l1s:
                 for l2 in l2s:
@@ -289,14 +461,17 @@ def _content_cases(short, tier):
         b = _plant_bc(bc, L.ROWS['scCHIC384C8U3l']['bc'])
         classes = [('tso@12', [[0, 12, L.TSO]] + b), ('tso@13', [[0, 13, L.TSO]] + b), ('tso@18', [[0, 18, L.TSO]] + b),
                    ('tso@40', [[0, 40, L.TSO]] + b), ('tso@20+60', [[0, 20, L.TSO], [0, 60, L.TSO]] + b),
-                   ('tso@8-straddles-insert-start', b + [[0, 8, L.TSO]]), ('tso@141', [[0, 141, L.TSO]] + b)]
+                   ('tso@8-straddles-insert-start', b + [[0, 8, L.TSO]]), ('tso@141', [[0, 141, L.TSO]] + b),
+                   # the oligo starts on the ligation base: it is in R1 but not (completely) in the insert
+                   ('tso@11-starts-before-the-insert', b + [[0, 11, L.TSO]]),
+                   ('tso@11+50', b + [[0, 11, L.TSO], [0, 50, L.TSO]])]
         for name, plant in classes:
             for l1 in range(0, L.READLEN + 1):
                 for l2 in (0, L.READLEN) if tier == 'quick' else (0, 1, 7, L.READLEN):
                     yield {'s': short, 'hd': 0, 'plant': plant, 'l1': l1, 'l2': l2, 'cls': name}, False
     else:
         for label, alias, sg in _sources(short):
-            picks = _pick3(alias)
+            picks = _pick3(alias, cfg)
             if not picks:
                 continue
             b = _plant_bc(picks[0], sg)
@@ -329,55 +504,89 @@ def _content_cases(short, tier):
 def _records(case):
     from singlecellmultiomics.fastqProcessing.fastqIterator import FastqRecord
     l2 = case['l2']
-    raw = L.build_reads(case['plant'], case['l1'], l2 if l2 is not None else 0)
+    raw = L.build_reads(case['plant'], case['l1'], l2 if l2 is not None else 0, case.get('v', 0), case.get('l3'), case.get('q'))
     if l2 is None:
         raw = raw[:1]
-    return raw, [FastqRecord(*r) for r in raw]
+    return raw, tuple(FastqRecord(*r) for r in raw)      # FastqIterator hands out a tuple of named tuples
 
 
 def _run(case):
-    """-> (status, violations, note); status in accepted/rejected/exception"""
+    """-> (status, violations, note); status in accepted/rejected/exception/refused-by-exception/accepted-unjudged"""
     short = case['s']
-    strat = _ST[case['hd']][short]
+    cfg = case.get('cfg', 'std')
+    strat = _ST[(cfg, case['hd'])][short]
     raw, recs = _records(case)
+    kw = {'library': 'LIB'}
+    if 'probe' in case:
+        kw['probe'] = case['probe']        # the loader always passes the keyword (None outside autodetection)
+    pre = ''
+    if 'pre' in case:
+        # an earlier strategy of the loader's list saw the same record objects first; its own outcome is not judged here
+        try:
+            _ST[(cfg, case['hd'])][case['pre']].demultiplex(recs, **kw)
+            pre = 'pre-accepted:'
+        except Exception:      # noqa
+            pre = 'pre-refused:'
     try:
-        res = strat.demultiplex(recs, library='LIB')
+        res = strat.demultiplex(recs, **kw)
     except _NM:
-        return 'rejected', [], ''
+        return 'rejected', [], pre
     except Exception as ex:      # noqa
+        if case.get('xr') or case.get('probe') is True or len(raw) == 3:
+            return 'refused-by-exception', [], pre + type(ex).__name__
         return 'exception', [(f'{short}:exception:{type(ex).__name__}', repr(ex))], ''
-    out = []
+    out, written = [], []
     try:
         for r in res:
             if isinstance(r, str):
                 out.append(r)
+                written.append(None)
             else:
                 out.append((dict(r.tags), r.sequence, r.qualities))
+                try:
+                    w = r.asFastq().split('\n')   # the record as it is written to the demultiplexed fastq file
+                    written.append((w[1], w[3]) if len(w) >= 4 else ('<no sequence line>', '<no quality line>'))
+                except Exception:      # noqa   (a record that refuses to be written belongs to C04)
+                    written.append(None)
     except Exception as ex:      # noqa
         return 'exception', [(f'{short}:result-not-a-list-of-records:{type(ex).__name__}', repr(ex))], ''
-    exp = L.expected(short, raw, _wl, case['hd'])
-    note = exp[0].get('note', short) if exp else 'no-layout'
-    v = L.compare(short, raw, out, exp, _wl, case['hd'])
+    if len(raw) != 2 and short != 'ILLU' and (len(raw) == 3 or short in L.COMPOSITE):
+        return 'accepted-unjudged', [], pre + f'{len(raw)}-reads'
+    wlf = _wlf(cfg)
+    exp = L.expected(short, raw, wlf, case['hd'])
+    note = pre + (exp[0].get('note', short) if exp else 'no-layout')
+    v = L.compare(short, raw, out, exp, wlf, case['hd'])
+    for mate, (o, w) in enumerate(zip(out, written)):
+        if w is not None and (w[0] != o[1] or w[1] != o[2]):
+            v.append((f'written-R{mate + 1}-sequence-or-qualities-differ-from-the-record',
+                      {'record': [o[1][:30], o[2][:30]], 'written': [w[0][:30], w[1][:30]]}))
     return 'accepted', [(f'{short}:{c}', {'clause': c, 'detail': d, 'R1': raw[0][1][:40], 'R2': raw[1][1][:40] if len(raw) > 1 else None})
                         for c, d in v], note
 
 
 def run_shard(shard, tier, acc):
     setup()
+    cfg = 'std'
+    if shard[0] == 'cfg':
+        _, cfg, shard = shard
     short = shard[1]
     n_acceptable = n_accepted_of_those = 0
-    for case, acceptable in _cases(shard, tier):
+    for case, acceptable in _cases(shard, tier, cfg):
+        if cfg != 'std':
+            case['cfg'] = cfg
         status, viols, note = _run(case)
         emitted = status == 'accepted'
-        acc.case(case, transitions=1, nontrivial=emitted and (case['l1'] > 0 or (case['l2'] or 0) > 0),
-                 outcome=f"{short}:{case['cls']}:{note}:{status}" if emitted else f"{short}:{case['cls']}:{status}")
+        lab = f"{short}:{case['cls']}" if cfg == 'std' else f"{cfg}:{short}:{case['cls']}"
+        acc.case(case, transitions=2 if 'pre' in case else 1,
+                 nontrivial=emitted and (case['l1'] > 0 or (case['l2'] or 0) > 0),
+                 outcome=f"{lab}:{note}:{status}")
         acc.count(f'{status}:{short}')
         if acceptable and case['l1'] == L.READLEN and case['l2'] in (None, L.READLEN):
             n_acceptable += 1
             n_accepted_of_those += emitted
         for sig, d in viols:
             acc.violation(sig, case, d)
-    if shard[0] == 'hd1':
+    if shard[0] == 'hd1' and cfg == 'std':
         for r in ([L.ROWS[short]] if short in L.ROWS else []):
             if r['weak'] or r['src'] != 'D':
                 acc.count(f"weak-row:{short}:src={r['src']}:{r['weak']}")
@@ -385,10 +594,10 @@ def run_shard(shard, tier, acc):
             acc.count(f'weak-row:{short}:composite:{L.COMPOSITE[short]}')
     if shard[0] == 'sweep' and shard[3] is None and short != 'ILLU':
         alias = [a for lab, a, _ in _sources(short) if lab == shard[2]][0]
-        acc.count(f'vacuous:{short}:whitelist {alias} is empty or not shipped')
-    if shard[0] == 'sweep' and n_acceptable and not n_accepted_of_those and not acc.viol:
-        raise bind.HarnessError(f'{short}: none of {n_acceptable} full-length pairs carrying a whitelisted barcode at the '
-                                f'documented position was accepted; the check would be vacuous for this strategy ({shard})')
+        acc.count(f'vacuous:{cfg}:{short}:whitelist {alias} is empty or not shipped')
+    if shard[0] in ('sweep', 'var', 'opt', 'chain', 'thin', 'se') and n_acceptable and not n_accepted_of_those and not acc.viol:
+        raise bind.HarnessError(f'{short}: none of {n_acceptable} full-length inputs carrying a whitelisted barcode at the '
+                                f'documented position was accepted; the check would be vacuous for this strategy ({cfg}, {shard})')
 
 
 def replay(case):
